@@ -155,6 +155,12 @@ func TestSim(t *testing.T) {
 				stuck = 0
 			}
 			last = cur
+			if stuck >= 120 && atomic.LoadInt32(&OracleBusy) != 0 {
+				// the history oracle (linearizability search) is taking too long: inconclusive, never a violation
+				fmt.Fprintln(os.Stderr, "sim: history oracle exceeded 60s real time (inconclusive)")
+				os.RemoveAll(logDir)
+				os.Exit(5)
+			}
 			if stuck >= 120 {
 				fmt.Fprintln(os.Stderr, "SIM-WATCHDOG: no driver progress for 60s real time; goroutine dump follows")
 				pprof.Lookup("goroutine").WriteTo(os.Stderr, 2)
